@@ -16,8 +16,9 @@ RULE = ("cases = (generated table with one of 9 last-column shapes, subset of 1.
         "order, mode in {owning mode, sql}): every single clause x every last-column shape x both modes exhaustively, every ordered "
         "pair of compatible clauses, then seeded random subsets/orders; clause values are varied (formats, literals, numbers, "
         "column lists). Non-trivial = every case (each compares a with/without pair); distinct = distinct (DDL, mode).")
-RULE += (" Added after seeded defects: identifier-valued clause slots take tricky-vocabulary names, delimited operands and (after TABLESPACE) keyword-shaped words.")
-ASSUMPTIONS = ["only clause combinations compatible within one dialect; order restricted where the dialect's own grammar fixes it (hql, oracle, mssql, bigquery, postgres, ibm_db2)",
+RULE += (" Added after seeded defects: identifier-valued clause slots take tricky-vocabulary names, delimited operands and (after TABLESPACE) keyword-shaped words; single-class STORED AS INPUTFORMAT / OUTPUTFORMAT; the clauses the pinned tree reads after a LIKE body (CREATE TABLE t LIKE s / (LIKE s)) are also generated there.")
+ASSUMPTIONS = ["a LIKE body stands where the column list would be: clauses are generated after it only where the pinned tree reads them (deny-list NOT_AFTER_LIKE, plain operands)",
+               "only clause combinations compatible within one dialect; order restricted where the dialect's own grammar fixes it (hql, oracle, mssql, bigquery, postgres, ibm_db2)",
                "calibrated placements: partitioned_by / partition_by / comment / tablespace are common fields (top level in both modes); snowflake retention/tracking options and spark USING live in table_properties in both modes",
                "a ',' element inside a bigquery CLUSTER BY column list is ignored"]
 MIN_EVENTS = {"statements": 100, "run_return": 100}
@@ -63,7 +64,9 @@ def catalogue(rng):
             [C("collection_items_terminated_by", "COLLECTION ITEMS TERMINATED BY ':'", {"collection_items_terminated_by": "':'"})],
             [C("map_keys_terminated_by", "MAP KEYS TERMINATED BY '#'", {"map_keys_terminated_by": "'#'"})],
             [C("stored_as", "STORED AS " + fmt, {"stored_as": fmt}),
-             C("stored_as", "STORED AS INPUTFORMAT 'a.b.In' OUTPUTFORMAT 'a.b.Out'", {"stored_as": {"outputformat": "'a.b.Out'", "inputformat": "'a.b.In'"}})],
+             C("stored_as", "STORED AS INPUTFORMAT 'a.b.In' OUTPUTFORMAT 'a.b.Out'", {"stored_as": {"outputformat": "'a.b.Out'", "inputformat": "'a.b.In'"}}),
+             C("stored_as", "STORED AS INPUTFORMAT 'a.b.OnlyIn'", {"stored_as": {"inputformat": "'a.b.OnlyIn'"}}),
+             C("stored_as", "STORED AS OUTPUTFORMAT 'a.b.OnlyOut'", {"stored_as": {"outputformat": "'a.b.OnlyOut'"}})],
             [C("location", "LOCATION " + loc, {"location": loc})],
             [C("tblproperties", "TBLPROPERTIES ('k1'='v1', 'k2'='v2')", {"tblproperties": {"'k1'": "'v1'", "'k2'": "'v2'"}}),
              C("tblproperties", "TBLPROPERTIES ('only'='one')", {"tblproperties": {"'only'": "'one'"}})],
@@ -124,8 +127,27 @@ def catalogue(rng):
     }
 
 
-def build(last, clauses):
-    base = "CREATE TABLE s.t (\n  a int,\n  %s\n)" % last
+LIKE_BODIES = {"like": "CREATE TABLE s.t LIKE s.src", "like_par": "CREATE TABLE s.t (LIKE s.src)", "like_par1": "CREATE TABLE s.t (LIKE src)"}
+# clauses the pinned tree does not read after a LIKE body (calibrated; no property claims them): not generated there
+NOT_AFTER_LIKE = {("snowflake", "with_tag"), ("oracle", "organization_index"), ("mysql", "default_charset"), ("mysql", "auto_increment"), ("mssql", "with"),
+                  ("ibm_db2", "index_in"), ("hql", "stored_as"), ("hql", "skewed_by"), ("hql", "comment"), ("bigquery", "options")}
+
+
+SAFE_OPERANDS = {"users", "TS_1", "data01", "parent2", "(s.parent)", "(parent2)"}
+
+
+def ok_after_like(d, c):
+    """clause usable after a LIKE body: read there by the pinned tree, and - for clauses whose operand is a free name - with a plain name
+    (keyword-shaped and tricky names are only claimed, and calibrated, after a column list)"""
+    if (d, c["id"]) in NOT_AFTER_LIKE:
+        return False
+    if c["id"] in ("tablespace", "inherits", "index_in"):
+        return c["text"].split()[-1] in SAFE_OPERANDS
+    return True
+
+
+def build(last, clauses, body=None):
+    base = LIKE_BODIES[body] if body else "CREATE TABLE s.t (\n  a int,\n  %s\n)" % last
     return base + ";\n", base + "\n" + "\n".join(c["text"] for c in clauses) + ";\n"
 
 
@@ -138,7 +160,9 @@ def norm_val(key, v):
 def check_case(ctx, case):
     ctx.evaluated(2)
     mode, clauses = case["mode"], case["clauses"]
-    base_ddl, full_ddl = build(case["last"], clauses)
+    base_ddl, full_ddl = build(case["last"], clauses, case.get("body"))
+    if case.get("body"):
+        ctx.obs["like_body_cases"] += 1
     ctx.nontrivial_case(digest(full_ddl + mode))
     b = parse(base_ddl, None, output_mode=mode)
     r = parse(full_ddl, None, output_mode=mode)
@@ -220,6 +244,8 @@ def run_shard(ctx):
                         i += 1
                         if ctx.mine(i):
                             check_case(ctx, {"gen": "single", "dialect": dialect, "mode": mode, "last": last, "clauses": [c]})
+                            if li < 3 and ok_after_like(dialect, c):
+                                check_case(ctx, {"gen": "single_like_body", "dialect": dialect, "mode": mode, "last": last, "clauses": [c], "body": sorted(LIKE_BODIES)[li]})
         # every ordered pair of compatible clauses
         for s1, s2 in itertools.permutations(range(len(slots)), 2):
             if ordered and s1 > s2:
@@ -235,6 +261,11 @@ def run_shard(ctx):
         d = rng.choice(dialects)
         clauses = pick(rng, cat, d, rng.randint(1, 4))
         case = {"gen": "random", "dialect": d, "mode": rng.choice([d, "sql"]), "last": rng.choice(LAST), "clauses": clauses}
+        if j % 5 == 0:
+            # the same clauses after a LIKE body (CREATE TABLE t LIKE s / (LIKE s)) instead of a column list
+            kept = [c for c in clauses if ok_after_like(d, c)]
+            if kept:
+                case = dict(case, clauses=kept, body=rng.choice(sorted(LIKE_BODIES)), gen="random_like_body")
         check_case(ctx, case)
         if j == 0:
             ctx.sample({"ddl": build(case["last"], clauses)[1], "mode": case["mode"]})
